@@ -161,6 +161,46 @@ CLAIMS = {
         technique="Lean 4 proof over a hand-written model + regenerated table + differential correspondence",
         design="9/C18",
     ),
+    "C19": dict(
+        text="Lean theorems on the model of finalize.report_unbuilt and pending.py: the regenerated ReturnCode bits, "
+             "root-kind priorities and statement skeleton; a bit-level iff for DRAINED, PENDING, FAILED and WARNING; "
+             "FAILED bit sound at full strength, complete for builds that are clean apart from glob matches, with a "
+             "negation theorem for the literal reading 'exactly when a glob matched a built file' (glob violations are "
+             "only examined when nothing else is wrong); exit status 0 implies not draining, no FAILED step, every "
+             "required step SUCCEEDED, no missing target, no glob violation (also on the kernel KState); the exit number "
+             "determines each flag; a rejected target gives FAILED alone; cleanup only after a complete build; "
+             "pend_blocker holds exactly one row per pending step; the UNION ALL attribution walk terminates for any "
+             "blocker table with its primary key (negation witness without it); every pending step is attributed to "
+             "exactly one root or is cyclic, and FILE + RESOURCE + failed + deferred + other + runnable + cyclic = total.",
+        note=BASE_NOTE + "Base relations of the pending analysis (pend_file_block, dead-end files, unsatisfiable resources) "
+             "and whether the cause shown is true of the graph are compared against a from-scratch Python reference on "
+             "generated leftover graphs; serve()'s exit status is checked on simulated builds. 'DRAINED without FAILED' "
+             "(a step ended the phase PENDING after its creator recycled it) is non-zero and not a violation of the text. "
+             "INTERNAL/INTERRUPTED exit paths are outside.",
+        technique="Lean 4 proof of the report decision logic and of the attribution walk (termination without acyclicity, "
+                  "partition, counts) + correspondence on generated leftover graphs + from-scratch reference of the pending "
+                  "analysis + exit-status oracle on simulated builds",
+        design="9/C19",
+    ),
+    "C14": dict(
+        text="Lean theorems: after any item sequence and any workflow answers the watcher's `updated` and `deleted` sets are "
+             "disjoint, duplicate-free and hold exactly the paths whose last relevant item was an update or a deletion "
+             "(record_change as a fold; the queued-during-build loop and the watch loop are one fold; DELETED_PARENT adds "
+             "exactly the relevant paths under the directory, through C18's site lemma); watcher and restart apply the same "
+             "single-file hash updates given complete events and no attached UNCONFIRMED file (partial, with the negation "
+             "showing that hypothesis is necessary); the kernel rejects EXTERNAL updates of UNDECLARED/PLANNED/VOLATILE files "
+             "(why the watcher must restrict itself to what a restart re-hashes); the glob part extends C17's "
+             "update-equals-rescan result. End-to-end equality of outputs, graph and return code is decided by a differential "
+             "oracle: watch rebuild versus restart on paired simulated directors over generated edit scripts.",
+        note=BASE_NOTE + "inotify runtime behaviour and the translation in change_loop are exercised, not modelled. Incomplete "
+             "phases compare return code plus the states of attached nodes, drained phases after a settling rebuild. Five "
+             "defects found by this oracle were fixed (three watcher defects, update-order, see known_findings.jsonl); known: "
+             "watch-new-directory-unreported (F8), watch-differs:change-while-detached.",
+        technique="Lean 4 proof of the record_change fold and of watcher/restart hash-application equivalence + correspondence "
+                  "against the real Watcher and logged sessions + differential oracle (watch rebuild versus restart) on paired "
+                  "simulated directors",
+        design="9/C14",
+    ),
 }
 
 PENDING_REASON = "machinery for this property is not built yet in this round (see DESIGN.md section 12 for the order)"
